@@ -1,4 +1,760 @@
-//! C09: harness domain (stub).
+//! C09: fragment reassembly (`edp_client::fragmentation::FragmentAssembler`).
+//!
+//! T lines  `c09run <timeout> <op>…`   the real assembler vs. the Lean model (lean/EdpVerif/Impl/Frag.lean)
+//! P lines  `c09spec once|full …`      the protocol's reference receiver (lean/EdpVerif/Spec/Frag.lean) on the real outputs
+//! X lines                              property failures the harness itself observes on the real assembler
+//!
+//! Failure classes: `gen` (default), `c09-isolation`, `c09-pending-count`, `c09-limit-complete` (none expected to fire) and the
+//! genuine defects of /repo: `kf-c09-ascending-order`, `kf-c09-count-above-vec-limit`, `kf-c09-cleanup-never-called`,
+//! `kf-c09-conflicting-header-count`.
+use crate::canon::hex;
 use crate::Ctx;
+use edp_client::fragmentation::FragmentAssembler;
+use std::collections::{BTreeMap, BTreeSet};
+use std::time::{Duration, Instant};
 
-pub fn run(_ctx: &mut Ctx) {}
+#[derive(Clone, Debug)]
+enum Op {
+    Start { seq: u64, fid: u64, cache: Option<Vec<u8>>, data: Vec<u8> },
+    Add { seq: u64, fid: u64, data: Vec<u8> },
+    Cleanup,
+    Count,
+    Clear,
+    /// timed mode only: let real time pass (one gap); not an assembler operation
+    Sleep,
+}
+
+#[derive(Clone, Copy, PartialEq, Debug)]
+enum Mode {
+    /// timeout far beyond the run: nothing ever expires; logical clock = op index
+    Huge,
+    /// `Duration::ZERO`: everything touched strictly earlier has expired at every cleanup; logical clock strictly increasing
+    Zero,
+    /// 20 ms timeout with 60 ms gaps, accepted only when the measured times make every expiry decision unambiguous
+    Timed,
+}
+
+const HUGE: u64 = 1_000_000_000_000;
+const TIMED_TIMEOUT_MS: u64 = 20;
+const TIMED_GAP_MS: u64 = 60;
+
+#[derive(Clone, Debug, PartialEq)]
+enum Out {
+    Bytes(Option<Vec<u8>>),
+    Removed(usize),
+    Pending(usize),
+    Cleared,
+}
+
+fn optarg(b: &Option<Vec<u8>>) -> String {
+    match b {
+        None => "n".to_string(),
+        Some(v) => format!("={}", hex(v)),
+    }
+}
+
+fn outword(o: &Out) -> String {
+    match o {
+        Out::Bytes(None) => "-".to_string(),
+        Out::Bytes(Some(v)) => format!("={}", hex(v)),
+        Out::Removed(k) => format!("c{}", k),
+        Out::Pending(k) => format!("p{}", k),
+        Out::Cleared => "x".to_string(),
+    }
+}
+
+struct Run {
+    req: String,
+    res: String,
+    outs: Vec<Out>,
+}
+
+/// Drive the real assembler. `None` = a timed run whose measured times were ambiguous (skipped), `Err` = panic.
+fn exec(mode: Mode, ops: &[Op]) -> Result<Option<Run>, ()> {
+    let ops2: Vec<Op> = ops.to_vec();
+    let r = std::panic::catch_unwind(move || {
+        let (timeout, tword) = match mode {
+            Mode::Huge => (Duration::from_secs(HUGE), HUGE),
+            Mode::Zero => (Duration::ZERO, 0),
+            Mode::Timed => (Duration::from_millis(TIMED_TIMEOUT_MS), TIMED_TIMEOUT_MS),
+        };
+        let mut asm = FragmentAssembler::with_timeout(timeout);
+        let mut words: Vec<String> = Vec::new();
+        let mut outs: Vec<Out> = Vec::new();
+        // (logical time, real time before, real time after) of every touching op; used to validate timed runs
+        let mut touches: Vec<(u64, Instant, Instant)> = Vec::new();
+        let mut logical: u64 = 0;
+        let mut ok = true;
+        for (i, op) in ops2.iter().enumerate() {
+            let now = match mode {
+                Mode::Huge => i as u64,
+                Mode::Zero => i as u64 + 1,
+                Mode::Timed => logical,
+            };
+            match op {
+                Op::Sleep => {
+                    std::thread::sleep(Duration::from_millis(TIMED_GAP_MS));
+                    logical += TIMED_GAP_MS;
+                }
+                Op::Start { seq, fid, cache, data } => {
+                    let t0 = Instant::now();
+                    let r = asm.start_fragment(*seq, *fid, cache.clone(), data.clone());
+                    touches.push((now, t0, Instant::now()));
+                    words.push(format!("s:{}:{}:{}:{}:={}", now, seq, fid, optarg(cache), hex(data)));
+                    outs.push(Out::Bytes(r));
+                }
+                Op::Add { seq, fid, data } => {
+                    let t0 = Instant::now();
+                    let r = asm.add_fragment(*seq, *fid, data.clone());
+                    touches.push((now, t0, Instant::now()));
+                    words.push(format!("a:{}:{}:{}:={}", now, seq, fid, hex(data)));
+                    outs.push(Out::Bytes(r));
+                }
+                Op::Cleanup => {
+                    if mode == Mode::Zero {
+                        // make sure the clock has advanced since the last touch, so `elapsed() > 0`
+                        let t = Instant::now();
+                        while t.elapsed() < Duration::from_micros(2) {}
+                    }
+                    let t0 = Instant::now();
+                    let k = asm.cleanup_expired();
+                    let t1 = Instant::now();
+                    if mode == Mode::Timed {
+                        for (l, before, after) in &touches {
+                            if now - l == 0 {
+                                // must certainly be unexpired
+                                if t1.duration_since(*before) >= Duration::from_millis(TIMED_TIMEOUT_MS) {
+                                    ok = false;
+                                }
+                            } else if t0.duration_since(*after) <= Duration::from_millis(TIMED_TIMEOUT_MS) {
+                                ok = false;
+                            }
+                        }
+                    }
+                    words.push(format!("c:{}", now));
+                    outs.push(Out::Removed(k));
+                }
+                Op::Count => {
+                    words.push("p".to_string());
+                    outs.push(Out::Pending(asm.pending_count()));
+                }
+                Op::Clear => {
+                    asm.clear();
+                    words.push("x".to_string());
+                    outs.push(Out::Cleared);
+                }
+            }
+        }
+        if !ok {
+            return None;
+        }
+        let res = outs.iter().map(outword).collect::<Vec<_>>().join(",");
+        Some(Run { req: format!("c09run {} {}", tword, words.join(" ")), res, outs })
+    });
+    r.map_err(|_| ())
+}
+
+/// run + T line; returns the outputs
+fn tie(ctx: &mut Ctx, tag: &str, mode: Mode, ops: &[Op]) -> Option<Vec<Out>> {
+    match exec(mode, ops) {
+        Ok(Some(r)) => {
+            ctx.tie(tag, &r.req, &r.res);
+            Some(r.outs)
+        }
+        Ok(None) => {
+            ctx.count("timed_runs_skipped_ambiguous_clock");
+            None
+        }
+        Err(()) => {
+            // the model has no panic outcome for the assembler: report through the tie with a result the model cannot produce
+            let words: Vec<String> = ops.iter().map(|o| format!("{:?}", o).replace(' ', "")).collect();
+            ctx.fail("gen", &format!("assembler panicked on {}", words.join(" ")));
+            None
+        }
+    }
+}
+
+/// a message cut the protocol's way (mirror of `Spec.Frag.cut` / `number`): `pieces[i]` has fragment id `n - i`
+#[derive(Clone, Debug)]
+struct Seq {
+    id: u64,
+    cache: Option<Vec<u8>>,
+    msg: Vec<u8>,
+    lens: Vec<usize>,
+    pieces: Vec<Vec<u8>>,
+}
+
+impl Seq {
+    fn new(id: u64, cache: Option<Vec<u8>>, msg: Vec<u8>, lens: Vec<usize>) -> Seq {
+        let mut pieces = Vec::new();
+        let mut rest: &[u8] = &msg;
+        for l in &lens {
+            let k = (*l).min(rest.len());
+            pieces.push(rest[..k].to_vec());
+            rest = &rest[k..];
+        }
+        pieces.push(rest.to_vec());
+        Seq { id, cache, msg, lens, pieces }
+    }
+    fn n(&self) -> u64 {
+        self.pieces.len() as u64
+    }
+    /// the op by which the fragment with id `fid` arrives: the header frame for `fid = n`, a continuation otherwise
+    fn op(&self, fid: u64) -> Op {
+        let n = self.n();
+        let data = self.pieces[(n - fid) as usize].clone();
+        if fid == n {
+            Op::Start { seq: self.id, fid, cache: self.cache.clone(), data }
+        } else {
+            Op::Add { seq: self.id, fid, data }
+        }
+    }
+    /// ascending-id concatenation equals the protocol's (descending-id) one, i.e. the order defect is invisible
+    fn order_insensitive(&self) -> bool {
+        let asc: Vec<u8> = self.pieces.iter().rev().flatten().copied().collect();
+        asc == self.msg
+    }
+    fn lens_arg(&self) -> String {
+        if self.lens.is_empty() {
+            "-".to_string()
+        } else {
+            self.lens.iter().map(|l| l.to_string()).collect::<Vec<_>>().join(",")
+        }
+    }
+}
+
+/// one arrival of a single sequence: a fragment id of the split, or a junk continuation with that id
+#[derive(Clone, Copy, Debug, PartialEq)]
+enum Arr {
+    Frag(u64),
+    Junk(u64),
+}
+
+/// single-sequence scenario: T line, and the protocol oracle on the implementation's outputs (P lines)
+fn single(ctx: &mut Ctx, tag: &str, s: &Seq, arrival: &[Arr]) {
+    let mut ops: Vec<Op> = arrival
+        .iter()
+        .map(|a| match a {
+            Arr::Frag(k) => s.op(*k),
+            Arr::Junk(k) => Op::Add { seq: s.id, fid: *k, data: vec![0xee] },
+        })
+        .collect();
+    ops.push(Op::Count);
+    let Some(outs) = tie(ctx, tag, Mode::Huge, &ops) else { return };
+    let outs_arg = outs[..arrival.len()].iter().map(outword).collect::<Vec<_>>().join(",");
+    let arr_arg = arrival
+        .iter()
+        .map(|a| match a {
+            Arr::Frag(k) => k.to_string(),
+            Arr::Junk(k) => format!("j{}", k),
+        })
+        .collect::<Vec<_>>()
+        .join(",");
+    let body = format!("{} {} ={} {} {} {}", s.id, optarg(&s.cache), hex(&s.msg), s.lens_arg(), arr_arg, outs_arg);
+    // exactly once, at the arrival of the last missing fragment, with the right length
+    ctx.prop(tag, &format!("c09spec once {}", body), "ok");
+    // … and it is the original message
+    let class = if s.order_insensitive() { tag } else { "kf-c09-ascending-order" };
+    if class != tag {
+        ctx.count("order_sensitive_cases");
+    }
+    ctx.prop(class, &format!("c09spec full {}", body), "ok");
+}
+
+fn permutations(n: u64) -> Vec<Vec<u64>> {
+    fn go(cur: &mut Vec<u64>, rest: &mut Vec<u64>, out: &mut Vec<Vec<u64>>) {
+        if rest.is_empty() {
+            out.push(cur.clone());
+            return;
+        }
+        for i in 0..rest.len() {
+            let x = rest.remove(i);
+            cur.push(x);
+            go(cur, rest, out);
+            cur.pop();
+            rest.insert(i, x);
+        }
+    }
+    let mut out = Vec::new();
+    go(&mut Vec::new(), &mut (1..=n).rev().collect(), &mut out);
+    out
+}
+
+/// all ways to choose the first `n-1` piece lengths of an `l`-byte message (pieces may be empty)
+fn all_lens(n: usize, l: usize) -> Vec<Vec<usize>> {
+    fn go(k: usize, left: usize, cur: &mut Vec<usize>, out: &mut Vec<Vec<usize>>) {
+        if k == 0 {
+            out.push(cur.clone());
+            return;
+        }
+        for x in 0..=left {
+            cur.push(x);
+            go(k - 1, left - x, cur, out);
+            cur.pop();
+        }
+    }
+    let mut out = Vec::new();
+    go(n - 1, l, &mut Vec::new(), &mut out);
+    out
+}
+
+fn exhaustive(ctx: &mut Ctx) {
+    let nmax = ctx.n(5, 7) as u64;
+    // (a) every arrival order × every cut of a short message
+    for n in 1..=nmax {
+        let perms = permutations(n);
+        let l = if n <= 5 { 4 } else { 2 };
+        let mut cuts = all_lens(n as usize, l);
+        if n >= 6 {
+            // n = 6, 7: all orders × two cuts of a 2-byte message plus (below) one cut with every piece non-empty
+            cuts.truncate(2);
+        }
+        let msg: Vec<u8> = (1..=l as u8).map(|b| b * 0x11).collect();
+        for lens in &cuts {
+            let s = Seq::new(40 + n, None, msg.clone(), lens.clone());
+            for p in &perms {
+                let arr: Vec<Arr> = p.iter().map(|k| Arr::Frag(*k)).collect();
+                single(ctx, "gen", &s, &arr);
+                ctx.count("exh_order_x_cut");
+            }
+        }
+        if n >= 6 {
+            let msg: Vec<u8> = (1..=2 * n as u8).collect();
+            let s = Seq::new(40 + n, Some(vec![0xca, 0xfe]), msg, vec![2; n as usize - 1]);
+            for p in &perms {
+                let arr: Vec<Arr> = p.iter().map(|k| Arr::Frag(*k)).collect();
+                single(ctx, "gen", &s, &arr);
+                ctx.count("exh_order_x_cut");
+            }
+        }
+    }
+    // (b) every arrival order × every single duplication (copy of arrival i re-delivered before position j; j = n means
+    //     after completion) and the all-duplicated pattern, on an 8-byte message with an atom-cache section
+    let dmax = ctx.n(5, 6) as u64;
+    for n in 1..=dmax {
+        let msg: Vec<u8> = (1..=8u8).collect();
+        let lens: Vec<usize> = (0..n as usize - 1).map(|i| 1 + (i % 2)).collect();
+        let s = Seq::new(7, Some(vec![0xaa, 0xbb]), msg, lens);
+        for p in &permutations(n) {
+            let base: Vec<Arr> = p.iter().map(|k| Arr::Frag(*k)).collect();
+            for i in 0..n as usize {
+                for j in (i + 1)..=(n as usize) {
+                    let mut arr = base.clone();
+                    arr.insert(j, base[i]);
+                    single(ctx, "gen", &s, &arr);
+                    ctx.count("exh_order_x_duplicate");
+                }
+            }
+            let all: Vec<Arr> = base.iter().flat_map(|a| [*a, *a]).collect();
+            single(ctx, "gen", &s, &all);
+            let twice: Vec<Arr> = base.iter().chain(base.iter()).copied().collect();
+            single(ctx, "gen", &s, &twice);
+            ctx.add("exh_order_x_duplicate", 2);
+        }
+    }
+    // (c) every arrival order × a junk continuation (id 0, n+1, u64::MAX) at every position
+    let jmax = ctx.n(4, 5) as u64;
+    for n in 1..=jmax {
+        let msg: Vec<u8> = (0x10..0x16u8).collect();
+        let lens: Vec<usize> = vec![1; n as usize - 1];
+        let s = Seq::new(u64::MAX, None, msg, lens);
+        for p in &permutations(n) {
+            let base: Vec<Arr> = p.iter().map(|k| Arr::Frag(*k)).collect();
+            for junk in [0, n + 1, u64::MAX] {
+                for j in 0..=n as usize {
+                    let mut arr = base.clone();
+                    arr.insert(j, Arr::Junk(junk));
+                    single(ctx, "gen", &s, &arr);
+                    ctx.count("exh_order_x_junk_id");
+                }
+            }
+        }
+    }
+    ctx.add("exhaustive", 1);
+}
+
+const SEQ_IDS: [u64; 8] = [0, 1, 2, 255, 65_536, 1 << 32, u64::MAX - 1, u64::MAX];
+
+fn gen_seq(ctx: &mut Ctx, id: u64) -> Seq {
+    let n = match ctx.rng.below(10) {
+        0 => 1,
+        1..=3 => 2,
+        4..=6 => 3,
+        7 => 4,
+        8 => 5,
+        _ => ctx.rng.range(6, 9),
+    } as usize;
+    let len = match ctx.rng.below(6) {
+        0 => 0,
+        1 => 1,
+        _ => ctx.rng.range(2, 14),
+    } as usize;
+    let msg = ctx.rng.bytes(len);
+    let lens: Vec<usize> = (0..n - 1).map(|_| ctx.rng.below(len as u64 / 2 + 2) as usize).collect();
+    let cache = match ctx.rng.below(4) {
+        0 => Some(ctx.rng.bytes(3)),
+        1 => Some(vec![]),
+        _ => None,
+    };
+    Seq::new(id, cache, msg, lens)
+}
+
+/// 2–4 interleaved sequences, random arrival orders, duplicates, junk ids, pending_count / cleanup / clear in between
+fn interleaved(ctx: &mut Ctx, tag: &str) {
+    let k = ctx.rng.range(2, 4) as usize;
+    let mut ids: Vec<u64> = Vec::new();
+    while ids.len() < k {
+        let id = if ctx.rng.chance(1, 2) { *ctx.rng.pick(&SEQ_IDS) } else { ctx.rng.next() };
+        if !ids.contains(&id) {
+            ids.push(id);
+        }
+    }
+    let seqs: Vec<Seq> = ids.iter().map(|id| gen_seq(ctx, *id)).collect();
+    let mode = if ctx.rng.chance(1, 6) { Mode::Zero } else { Mode::Huge };
+    let dirty = ctx.rng.chance(1, 2); // junk ids, altered duplicates, duplicates after completion, clear
+    let mut queues: Vec<Vec<Op>> = Vec::new();
+    let mut clean = !dirty;
+    for s in &seqs {
+        let mut order: Vec<u64> = (1..=s.n()).collect();
+        ctx.rng.shuffle(&mut order);
+        // an incomplete sequence now and then
+        if ctx.rng.chance(1, 4) {
+            let keep = ctx.rng.below(order.len() as u64) as usize;
+            order.truncate(keep);
+        }
+        let mut q: Vec<Op> = order.iter().map(|f| s.op(*f)).collect();
+        // duplicates delivered before the sequence completes (exact copies)
+        if q.len() >= 2 && ctx.rng.chance(1, 3) {
+            let i = ctx.rng.below(q.len() as u64 - 1) as usize;
+            let j = ctx.rng.range(i as u64 + 1, q.len() as u64 - 1) as usize;
+            let d = q[i].clone();
+            q.insert(j, d);
+            ctx.count("il_duplicate_before_completion");
+        }
+        if dirty {
+            for _ in 0..ctx.rng.below(3) {
+                let fid = *ctx.rng.pick(&[0, s.n() + 1, s.n() + 2, u64::MAX, s.n(), 1]);
+                let pos = ctx.rng.below(q.len() as u64 + 1) as usize;
+                let data = ctx.rng.bytes(2);
+                let op = if ctx.rng.chance(1, 5) && fid != 0 {
+                    // a second header, possibly with another count
+                    ctx.count("il_extra_header");
+                    Op::Start { seq: s.id, fid, cache: if ctx.rng.chance(1, 2) { Some(vec![0x99]) } else { None }, data }
+                } else {
+                    ctx.count("il_junk_or_altered_fragment");
+                    Op::Add { seq: s.id, fid, data }
+                };
+                q.insert(pos, op);
+            }
+        }
+        queues.push(q);
+    }
+    // merge the queues in a random interleaving
+    let mut ops: Vec<Op> = Vec::new();
+    let mut idx = vec![0usize; queues.len()];
+    loop {
+        let live: Vec<usize> = (0..queues.len()).filter(|i| idx[*i] < queues[*i].len()).collect();
+        if live.is_empty() {
+            break;
+        }
+        let i = *ctx.rng.pick(&live);
+        ops.push(queues[i][idx[i]].clone());
+        idx[i] += 1;
+        match ctx.rng.below(12) {
+            0 | 1 => ops.push(Op::Count),
+            2 => {
+                ops.push(Op::Cleanup);
+                ctx.count("il_cleanup");
+            }
+            3 if dirty && ctx.rng.chance(1, 6) => {
+                ops.push(Op::Clear);
+                ctx.count("il_clear");
+                clean = false;
+            }
+            _ => {}
+        }
+    }
+    ops.push(Op::Count);
+    ctx.count(&format!("il_sequences_{}", k));
+    ctx.count(if mode == Mode::Zero { "il_mode_zero_timeout" } else { "il_mode_no_expiry" });
+    let Some(outs) = tie(ctx, tag, mode, &ops) else { return };
+    let has_clear = ops.iter().any(|o| matches!(o, Op::Clear));
+    // isolation: what a sequence returns is what it returns when fed alone
+    if mode == Mode::Huge && !has_clear {
+        for s in &seqs {
+            let mine: Vec<usize> = (0..ops.len())
+                .filter(|i| match &ops[*i] {
+                    Op::Start { seq, .. } | Op::Add { seq, .. } => *seq == s.id,
+                    _ => false,
+                })
+                .collect();
+            let alone: Vec<Op> = mine.iter().map(|i| ops[*i].clone()).collect();
+            if let Ok(Some(r)) = exec(Mode::Huge, &alone) {
+                let together: Vec<Out> = mine.iter().map(|i| outs[*i].clone()).collect();
+                ctx.count("isolation_checks");
+                if r.outs != together {
+                    ctx.fail("c09-isolation", &format!("seq={} alone={} interleaved-run={}", s.id, r.res, r.req));
+                }
+            }
+        }
+    }
+    // pending_count = number of sequences that have started and are still incomplete (protocol-conforming runs, nothing expires)
+    if clean && mode == Mode::Huge {
+        let mut seen: BTreeMap<u64, BTreeSet<u64>> = BTreeMap::new();
+        for o in &ops {
+            match o {
+                Op::Start { seq, fid, .. } | Op::Add { seq, fid, .. } => {
+                    seen.entry(*seq).or_default().insert(*fid);
+                }
+                _ => {}
+            }
+        }
+        let expect = seqs
+            .iter()
+            .filter(|s| seen.get(&s.id).map(|f| !f.is_empty() && (f.len() as u64) < s.n()).unwrap_or(false))
+            .count();
+        ctx.count("pending_count_checks");
+        if outs.last() != Some(&Out::Pending(expect)) {
+            ctx.fail("c09-pending-count", &format!("expected {} incomplete sequences, pending_count says {:?}", expect, outs.last()));
+        }
+        // and every complete sequence was returned exactly once
+        for s in &seqs {
+            let complete = seen.get(&s.id).map(|f| f.len() as u64 == s.n()).unwrap_or(false);
+            let returned = (0..ops.len())
+                .filter(|i| match (&ops[*i], &outs[*i]) {
+                    (Op::Start { seq, .. }, Out::Bytes(Some(_))) | (Op::Add { seq, .. }, Out::Bytes(Some(_))) => *seq == s.id,
+                    _ => false,
+                })
+                .count();
+            if returned != complete as usize {
+                ctx.fail("gen", &format!("sequence {} complete={} but returned {} times", s.id, complete, returned));
+            }
+        }
+    }
+}
+
+/// counts around the two limits, ids 0 / n+1 / u64::MAX, continuation-before-header with such ids
+fn boundaries(ctx: &mut Ctx) {
+    let counts: [u64; 13] =
+        [0, 1, 2, 3, 99_999, 100_000, 100_001, 100_002, 500_000, 999_999, 1_000_000, 1_000_001, u64::MAX];
+    for c in counts {
+        let ids: Vec<u64> = vec![0, 1, 2, c.wrapping_sub(1), c, c.wrapping_add(1), u64::MAX];
+        // header first
+        let mut ops = vec![Op::Start { seq: 9, fid: c, cache: Some(vec![0xc0]), data: vec![0x01] }, Op::Count];
+        for f in &ids {
+            ops.push(Op::Add { seq: 9, fid: *f, data: vec![*f as u8, 0x02] });
+        }
+        ops.push(Op::Count);
+        ops.push(Op::Start { seq: 9, fid: c, cache: None, data: vec![0x03] });
+        ops.push(Op::Count);
+        tie(ctx, "gen", Mode::Huge, &ops);
+        // continuations first, header last
+        let mut ops = vec![];
+        for f in &ids {
+            ops.push(Op::Add { seq: 9, fid: *f, data: vec![*f as u8, 0x04] });
+        }
+        ops.push(Op::Count);
+        ops.push(Op::Start { seq: 9, fid: c, cache: None, data: vec![0x05] });
+        ops.push(Op::Count);
+        ops.push(Op::Add { seq: 9, fid: 1, data: vec![0x06] });
+        ops.push(Op::Count);
+        tie(ctx, "gen", Mode::Huge, &ops);
+        ctx.add("boundary_count_scenarios", 2);
+    }
+    // two headers with different counts for one sequence (shrinking and growing across the limits)
+    let pairs: [(u64, u64); 10] =
+        [(3, 2), (2, 3), (3, 1), (1, 3), (5, 100_001), (100_001, 5), (100_000, 100_001), (100_001, 100_000), (2, 1_000_001), (4, 4)];
+    for (c1, c2) in pairs {
+        let mut ops = vec![
+            Op::Add { seq: 3, fid: 1, data: vec![0x0a] },
+            Op::Start { seq: 3, fid: c1, cache: Some(vec![0x11]), data: vec![0x0b] },
+            Op::Count,
+            Op::Start { seq: 3, fid: c2, cache: Some(vec![0x22]), data: vec![0x0c] },
+            Op::Count,
+        ];
+        for f in [2u64, 1, 3, c2] {
+            ops.push(Op::Add { seq: 3, fid: f, data: vec![f as u8] });
+        }
+        ops.push(Op::Count);
+        tie(ctx, "gen", Mode::Huge, &ops);
+        ctx.count("conflicting_header_scenarios");
+    }
+    // a complete medium-size sequence in random order (model = code on a long run)
+    let n = ctx.n(300, 2000) as u64;
+    let msg: Vec<u8> = (0..n).map(|i| i as u8).collect();
+    let s = Seq::new(77, Some(vec![1, 2, 3]), msg, vec![1; n as usize - 1]);
+    let mut order: Vec<u64> = (1..=n).collect();
+    ctx.rng.shuffle(&mut order);
+    let mut ops: Vec<Op> = order.iter().map(|f| s.op(*f)).collect();
+    ops.push(Op::Count);
+    tie(ctx, "gen", Mode::Huge, &ops);
+    ctx.count("medium_full_sequence");
+}
+
+/// full-size runs on the real assembler only (too long for a line): the limit itself and the counts above it
+fn big_runs(ctx: &mut Ctx) {
+    let mut counts = vec![100_000u64, 100_001];
+    if ctx.thorough {
+        counts.push(1_000_000);
+    }
+    for n in counts {
+        let r = std::panic::catch_unwind(|| {
+            let mut asm = FragmentAssembler::new();
+            let mut somes = 0usize;
+            let mut at_last = false;
+            let mut len = 0usize;
+            for fid in (1..=n).rev() {
+                let data = vec![fid as u8];
+                let r = if fid == n { asm.start_fragment(5u64, fid, None, data) } else { asm.add_fragment(5u64, fid, data) };
+                if let Some(b) = r {
+                    somes += 1;
+                    at_last = fid == 1;
+                    len = b.len();
+                }
+            }
+            (somes, at_last, len, asm.pending_count())
+        });
+        ctx.count("full_size_runs");
+        match r {
+            Err(_) => ctx.fail("gen", &format!("assembler panicked on a {}-fragment sequence", n)),
+            Ok((1, true, len, 0)) if len as u64 == n => {}
+            Ok((somes, at_last, len, pending)) => {
+                let text = format!(
+                    "a {}-fragment sequence delivered completely in protocol order (header id {}, continuations {}..1, one byte each): returned {} time(s) (at the last fragment: {}), {} bytes, pending_count={} afterwards",
+                    n, n, n - 1, somes, at_last, len, pending
+                );
+                if n > 100_000 {
+                    ctx.fail("kf-c09-count-above-vec-limit", &text);
+                } else {
+                    ctx.fail("c09-limit-complete", &text);
+                }
+            }
+        }
+    }
+}
+
+/// two headers with different counts: the slot vector is truncated but `received_count` is kept
+fn conflicting_header(ctx: &mut Ctx) {
+    let ops = vec![
+        Op::Start { seq: 1, fid: 3, cache: None, data: vec![0x33] },
+        Op::Start { seq: 1, fid: 2, cache: None, data: vec![0x22] },
+        Op::Count,
+    ];
+    if let Some(outs) = tie(ctx, "gen", Mode::Huge, &ops) {
+        if let Out::Bytes(Some(b)) = &outs[1] {
+            ctx.fail(
+                "kf-c09-conflicting-header-count",
+                &format!(
+                    "start_fragment(1,3,None,[33]) then start_fragment(1,2,None,[22]) returns Some({}) although fragment 1 never arrived",
+                    hex(b)
+                ),
+            );
+        }
+    }
+}
+
+/// expiry through the public API: zero timeout (everything expires), and real 20 ms timeouts with 60 ms gaps
+fn expiry(ctx: &mut Ctx) {
+    for _ in 0..ctx.n(60, 600) {
+        // zero timeout: random touches and cleanups
+        let mut ops = Vec::new();
+        for _ in 0..ctx.rng.range(2, 10) {
+            let seq = ctx.rng.below(4);
+            match ctx.rng.below(5) {
+                0 => ops.push(Op::Cleanup),
+                1 => ops.push(Op::Count),
+                2 => ops.push(Op::Start { seq, fid: ctx.rng.range(1, 4), cache: None, data: ctx.rng.bytes(1) }),
+                _ => ops.push(Op::Add { seq, fid: ctx.rng.range(0, 4), data: ctx.rng.bytes(1) }),
+            }
+        }
+        ops.push(Op::Cleanup);
+        ops.push(Op::Count);
+        tie(ctx, "gen", Mode::Zero, &ops);
+        ctx.count("expiry_zero_timeout_scenarios");
+    }
+    for _ in 0..ctx.n(4, 40) {
+        // real time: touches, gaps, cleanups; a touched sequence survives, an untouched one goes
+        let mut ops = Vec::new();
+        let mut sleeps = 0;
+        for _ in 0..ctx.rng.range(3, 8) {
+            let seq = ctx.rng.below(3);
+            match ctx.rng.below(6) {
+                0 if sleeps < 2 => {
+                    ops.push(Op::Sleep);
+                    sleeps += 1;
+                }
+                1 => ops.push(Op::Cleanup),
+                2 => ops.push(Op::Start { seq, fid: ctx.rng.range(2, 4), cache: None, data: ctx.rng.bytes(1) }),
+                _ => ops.push(Op::Add { seq, fid: ctx.rng.range(1, 4), data: ctx.rng.bytes(1) }),
+            }
+        }
+        if sleeps == 0 {
+            ops.insert(ops.len() / 2, Op::Sleep);
+        }
+        ops.push(Op::Cleanup);
+        ops.push(Op::Count);
+        tie(ctx, "gen", Mode::Timed, &ops);
+        ctx.count("expiry_real_time_scenarios");
+    }
+}
+
+/// `cleanup_expired` has to be called by whoever owns the assembler, or incomplete sequences are held for ever
+fn cleanup_call_sites(ctx: &mut Ctx) {
+    let repo = std::env::var("EDP_REPO").unwrap_or_else(|_| "/repo".to_string());
+    let mut files: Vec<std::path::PathBuf> = Vec::new();
+    let mut stack = vec![std::path::PathBuf::from(format!("{}/crates", repo))];
+    while let Some(d) = stack.pop() {
+        let Ok(rd) = std::fs::read_dir(&d) else { continue };
+        for e in rd.flatten() {
+            let p = e.path();
+            if p.is_dir() {
+                if p.file_name().map(|n| n != "tests" && n != "target" && n != "benches" && n != "examples").unwrap_or(false) {
+                    stack.push(p);
+                }
+            } else if p.extension().map(|x| x == "rs").unwrap_or(false) {
+                files.push(p);
+            }
+        }
+    }
+    let mut owners = 0;
+    let mut callers = 0;
+    for f in &files {
+        if f.ends_with("fragmentation.rs") {
+            continue;
+        }
+        let Ok(src) = std::fs::read_to_string(f) else { continue };
+        if src.contains("FragmentAssembler::") {
+            owners += 1;
+        }
+        if src.contains(".cleanup_expired(") {
+            callers += 1;
+        }
+    }
+    ctx.add("static_source_files_scanned", files.len() as u64);
+    if files.is_empty() {
+        ctx.count("static_scan_unavailable");
+    } else if owners > 0 && callers == 0 {
+        ctx.fail(
+            "kf-c09-cleanup-never-called",
+            &format!(
+                "{} non-test source file(s) construct a FragmentAssembler (connection.rs) but none calls cleanup_expired(): an incomplete sequence is held until the connection is dropped",
+                owners
+            ),
+        );
+    }
+}
+
+pub fn run(ctx: &mut Ctx) {
+    // the order defect on the smallest message, as its own line
+    let s = Seq::new(1, None, vec![0x01, 0x02], vec![1]);
+    single(ctx, "gen", &s, &[Arr::Frag(2), Arr::Frag(1)]);
+    exhaustive(ctx);
+    for _ in 0..ctx.n(2500, 20000) {
+        interleaved(ctx, "gen");
+    }
+    boundaries(ctx);
+    conflicting_header(ctx);
+    expiry(ctx);
+    big_runs(ctx);
+    cleanup_call_sites(ctx);
+}
